@@ -25,6 +25,8 @@ SimDefaults == {TAX, TBY, TAY}
 Keep == UNCHANGED h
 Log  == h' = Append(h, last')
 Bound == TLCGet("level") <= Depth
+(* which mutation produced a state is irrelevant for the exhaustive instance *)
+View == <<objs, IF last.op = "resolve" THEN last ELSE Rec("mut", 0, NOKEY, 0, NOKEY, NOKEY, FALSE, 0, FALSE)>>
 
 XSet(o)        == \E k \in Keys, v \in HandlerIds : Set(o, k, v)
 XSetDefault(o) == \E k \in Keys, v \in HandlerIds : SetDefault(o, k, v)
